@@ -11,6 +11,9 @@ S=$(mktemp -d "$TMPDIR/neofs-scratch-XXXXXX")
 trap 'rm -rf "$S"' EXIT
 rsync -a --exclude .git /repo/ "$S/repo/"
 case "$BRK" in
+  [a-z]*-*[a-z0-9]) [ -f "$BRK" ] || { (cd "$S/repo" && python3 "$HERE/selftest/breaks.py" apply "$BRK") || { echo "SELFTEST-ERROR: break not applicable: $BRK"; exit 3; }; } ;;
+esac
+case "$BRK" in
   *.patch|*.diff) (cd "$S/repo" && patch -p1 -s < "$BRK") || { echo "SELFTEST-ERROR: patch does not apply: $BRK"; exit 3; } ;;
   *.sh) (cd "$S/repo" && sh "$BRK") || { echo "SELFTEST-ERROR: script failed: $BRK"; exit 3; } ;;
 esac
